@@ -40,35 +40,6 @@ open Tetro.Model Tetro.Model.Machine Tetro.Model.Whole
 open Tetro.WholeProofs Tetro.BoardOam Tetro.BoardTrace Tetro.GhostBus Tetro.C17Whole Tetro.WholeNoCrash
 open Tetro.Timer (Write Obs Call)
 
-/-! ## 0. runs -/
-
-theorem run_add (a b : Nat) (w : Whole) : Whole.run (a + b) w = Whole.run b (Whole.run a w) := by
-  induction a generalizing w with
-  | zero => rw [Nat.zero_add]; rfl
-  | succ a ih =>
-    rw [Nat.add_right_comm]
-    exact ih w.cycle
-
-/-- a machine that is running after `n` cycles was running all the way -/
-theorem running_prefix (k n : Nat) (hk : k ≤ n) (w : Whole) (h : (Whole.run n w).stopped = false) :
-    (Whole.run k w).stopped = false := by
-  obtain ⟨d, rfl⟩ : ∃ d, n = k + d := ⟨n - k, by omega⟩
-  rw [run_add] at h
-  clear hk
-  generalize Whole.run k w = x at h
-  induction d generalizing x with
-  | zero => exact h
-  | succ d ih => exact (running_before x (ih x.cycle h)).1
-
-/-- a constructed machine stops only by `os.Exit` on an undefined opcode -/
-theorem constructed_running (img : Cart.Image) (wr au : Bool) (w0 : Whole)
-    (hc : Whole.construct img wr au = some w0) (n : Nat) :
-    (Whole.run n w0).stopped = (Whole.run n w0).cpu.regs.exited := by
-  obtain ⟨h1, h2⟩ := c11_whole_never_panics img wr au w0 hc n
-  unfold Whole.stopped
-  rw [h1, h2]
-  rfl
-
 /-! ## 1. the timer -/
 
 /-- the timer-register write a bus write is: FF04 DIV (value ignored), FF05 TIMA, FF06 TMA, FF07 TAC -/
@@ -437,6 +408,12 @@ theorem whole_one_timer_write (w : Whole)
       · exact filter_le_one _ _ h
   · unfold cpuWrites; rw [hs, if_pos rfl]; exact Nat.zero_le 1
 
+/-- … so a program that keeps SP away from FF06–FF08 (at the cycle boundaries of the run) writes at most one timer
+    register per machine cycle -/
+theorem whole_one_timer_write_run (n : Nat) (w : Whole)
+    (h : ∀ k < n, ¬ (0xFF06 ≤ (Whole.run k w).cpu.regs.sp.toNat ∧ (Whole.run k w).cpu.regs.sp.toNat ≤ 0xFF08)) :
+    OneTimerWriteRun n w := fun k hk => whole_one_timer_write _ (Or.inl (h k hk))
+
 /-! ### non-vacuity (timer) -/
 
 /-- the all-NOP machine of Proofs/Whole.lean: constructed, never exits, never writes -/
@@ -721,16 +698,6 @@ def cartOp? (p : Cpu.Word × Cpu.Byte) : Option Cart.Op :=
   if Cart.cartAddr p.1.toNat then some (.write p.1 p.2) else none
 
 def cartWrites (wr : List (Cpu.Word × Cpu.Byte)) : List Cart.Op := wr.filterMap cartOp?
-
-theorem cart_run_append (c : Cart.Mbc) (a b : List Cart.Op) :
-    Cart.run c (a ++ b) = (Cart.run c a).bind fun c' => Cart.run c' b := by
-  induction a generalizing c with
-  | nil => rfl
-  | cons op a ih =>
-    simp only [List.cons_append, Cart.run]
-    cases Cart.step c op with
-    | none => rfl
-    | some c1 => exact ih c1
 
 private theorem cart_fold (wr : List (Cpu.Word × Cpu.Byte)) (c : Cart.Mbc) (hwf : Tetro.CartWF.WellFormed c) :
     Cart.run c (cartWrites wr) = some (wr.foldl (fun c p => cartAfterWrite c p.1.toNat p.2.toNat) c) := by
@@ -1061,5 +1028,63 @@ theorem c22_whole (img : Cart.Image) (wr au : Bool) (w0 : Whole) (hc : Whole.con
     (runEvents evs w0).b.read 0xFF00 =
       ((Spec.Joyp.read ((joypTrace evs w0).foldl Tetro.C22.specStep Spec.Joyp.init)).toNat, (runEvents evs w0).b) := by
   rw [whole_joyp_read, whole_joyp_run evs w0 h, (construct_apu img wr au w0 hc).2, Tetro.C22.c22_read_refines]
+
+/-! ### non-vacuity (cartridge, APU, joypad) -/
+
+/-- a 64 KiB MBC1 image (4 banks, every byte outside the code = its bank number) whose program writes NR12, selects
+    the button group of the joypad and switches ROM bank 2 in:
+    `LD A,F3; LDH (12),A; LD A,10; LDH (00),A; LD A,02; LD (2100),A` -/
+def allImg : Cart.Image :=
+  { len := 0x10000,
+    byte := fun i =>
+      if i = 0x147 then 0x01 else if i = 0x148 then 0x01 else if i = 0x149 then 0x00
+      else if 0x100 ≤ i ∧ i < 0x10d then
+        [0x3E, 0xF3, 0xE0, 0x12, 0x3E, 0x10, 0xE0, 0x00, 0x3E, 0x02, 0xEA, 0x00, 0x21].getD (i - 0x100) 0
+      else i / 0x4000 }
+
+/-- the machine `gameboy.New` builds from it (speakers attached) -/
+def allW : Whole := (Whole.construct allImg false true).getD demo
+
+private theorem allW_constructed : Whole.construct allImg false true = some allW := by
+  have h : (Whole.construct allImg false true).isSome = true := by decide +kernel
+  unfold allW
+  cases hc : Whole.construct allImg false true with
+  | none => rw [hc] at h; cases h
+  | some w => rfl
+
+/-- the hypotheses of `c08_whole` hold for it … -/
+example : Tetro.C08.ctrlOf (allImg.byte 0x0147) = some .mbc1 ∧ Tetro.C08.Documented .mbc1 (allImg.len / 0x4000) ∧
+    (Whole.run 16 allW).cpu.regs.exited = false :=
+  ⟨by decide, by show (0x10000 / 0x4000 : Nat) ≤ 128; decide, by decide +kernel⟩
+
+/-- … and its conclusion is not trivial: the induced history contains the bank switch (performed in cycle 16), the
+    documented bank of 4000–7FFF becomes 2 and the CPU reads bank 2 there -/
+example : Spec.Cart.romBank .mbc1 4 (Tetro.CartSim.hist (cartTrace 15 allW)) 0x4000 = 1 ∧
+    Spec.Cart.romBank .mbc1 4 (Tetro.CartSim.hist (cartTrace 16 allW)) 0x4000 = 2 ∧
+    ((Whole.run 15 allW).b.read 0x4000).1 = 1 ∧ ((Whole.run 16 allW).b.read 0x4000).1 = 2 := by decide +kernel
+
+example (n : Nat) (hx : (Whole.run n allW).cpu.regs.exited = false) (a : Nat) (ha : a < 0x8000) :
+    ((Whole.run n allW).b.read a).1 =
+      allImg.byte (Spec.Cart.romBank .mbc1 4 (Tetro.CartSim.hist (cartTrace n allW)) a * 0x4000 + a % 0x4000) := by
+  rw [c08_whole allImg false true allW allW_constructed .mbc1 (by decide)
+    (by show (0x10000 / 0x4000 : Nat) ≤ 128; decide) n hx a ha]
+  rfl
+
+/-- APU: the induced history has the NR12 write in the cycle the CPU performs it; `c18_whole` then says FF12 reads
+    F3 (mask 00) -/
+example : apuTrace 6 allW = [.cycle, .cycle, .cycle, .cycle, .write 0xFF12 0xF3, .cycle, .cycle] ∧
+    Spec.Apu.mask 0xFF12 = some 0 ∧ soundAddr 0xFF12 = true ∧
+    (Tetro.C18.lastWritten (apuTrace 6 allW)).val 0xFF12 = 0xF3 ∧ ((Whole.run 6 allW).b.read 0xFF12).1 = 0xF3 := by
+  decide +kernel
+
+/-- joypad: A is pressed before the first cycle and released after ten cycles; the program selects the button group
+    in between; FF00 reads DE (A low) while it is held -/
+example : (joypTrace [some (4, true), none, none, none, none, none, none, none, none, none, none, some (4, false)]
+        allW).map (fun op => match op with | .write v => (0, v.toNat, false) | .button k p => (1, k, p))
+      = [(1, 4, true), (0, 0x10, false), (1, 4, false)] ∧
+    (runEvents [some (4, true), none, none, none, none, none, none, none, none, none, none] allW).stopped = false ∧
+    ((runEvents [some (4, true), none, none, none, none, none, none, none, none, none, none] allW).b.read 0xFF00).1
+      = 0xDE := by
+  decide +kernel
 
 end Tetro.WholeTraces
